@@ -153,6 +153,20 @@ func nodeDefsUses(info *types.Info, a ast.Node) (defs map[*types.Var]ast.Expr, u
 				}
 			}
 		}
+	case *ast.ValueSpec:
+		// go/cfg adds each var ValueSpec of a declaration statement as a node
+		for i, nm := range s.Names {
+			var rhs ast.Expr
+			if len(s.Values) == len(s.Names) {
+				rhs = s.Values[i]
+			} else if len(s.Values) == 1 {
+				rhs = s.Values[0]
+			}
+			lhs[nm] = true
+			if v, ok := info.Defs[nm].(*types.Var); ok {
+				defs[v] = rhs
+			}
+		}
 	case *ast.RangeStmt:
 		// not a CFG node as a whole
 	}
@@ -557,7 +571,7 @@ func (d *errL2) Transfer(n *Node, s Store) []Store {
 			continue
 		}
 		val := d.val(s, rhs)
-		if _, isDecl := n.Ast.(*ast.DeclStmt); isDecl && rhs == nil {
+		if isVarDeclNode(n.Ast) && rhs == nil {
 			val = "N"
 		}
 		if as, ok := n.Ast.(*ast.AssignStmt); ok && len(as.Rhs) == 1 && len(as.Lhs) > 1 {
@@ -617,6 +631,26 @@ func (d *errL2) Refine(e *Edge, s Store) (Store, bool) {
 		}
 		return s, true
 	case "cmp":
+		// classify(err) == K (status.Code(err) == codes.Unavailable): on the equal
+		// edge of a non-zero class the error was classified by value
+		if at.Op == token.EQL {
+			for _, pair := range [][2]ast.Expr{{at.X, at.Y}, {at.Y, at.X}} {
+				ce := ast.Unparen(pair[0])
+				if lv, isV := identObj(info, ce).(*types.Var); isV && !lv.IsField() {
+					// code := status.Code(err); ... code == K
+					if def := d.p.singleDef(d.f, lv); def != nil {
+						ce = ast.Unparen(def)
+					}
+				}
+				if call, ok := ce.(*ast.CallExpr); ok && len(call.Args) == 1 {
+					if v, ok := identObj(info, call.Args[0]).(*types.Var); ok && d.ev.vars[v] {
+						if k, isK := constInt(info, pair[1]); isK && k != 0 {
+							return s.With("V:"+varKey(v), "H"), true
+						}
+					}
+				}
+			}
+		}
 		// err == io.EOF and friends: on the equal edge err is non-nil
 		v, ok := identObj(info, at.X).(*types.Var)
 		if ok && d.ev.vars[v] && at.Op == token.EQL && !isNilIdent(info, at.Y) {
@@ -726,4 +760,14 @@ func ruleErrL2Scoped(c *Ctx, only func(*Func) bool) {
 			c.R.Violate("R-ERR/L2", p.Pos(v.node.Ast), f.Name, v.cs, v.detail, res.PathOf(p, v.node, v.state))
 		}
 	}
+}
+
+// isVarDeclNode: a is a `var` declaration as it appears in the CFG (go/cfg
+// records the ValueSpec, not the enclosing DeclStmt).
+func isVarDeclNode(a ast.Node) bool {
+	switch a.(type) {
+	case *ast.DeclStmt, *ast.ValueSpec:
+		return true
+	}
+	return false
 }
